@@ -213,6 +213,7 @@ prop("C14", NEC + "Clauses: the call statement is located with node, origin and 
       {"rule": "TRAVERSE", "filter": tag("calls"), "floor": 18}, {"rule": "SCOPE-ORDER", "filter": both(feat("hover", "signature_help"), nottag("typescope", "semantic")), "floor": 10},
       {"rule": "DISPLAY-FIELDS", "floor": 6}, {"rule": "IDENT-RANGE", "filter": feat("hover", "signature_help"), "floor": 4}, {"rule": "POS-CONV", "filter": feat("hover", "signature_help"), "floor": 4},
       {"rule": "CURSOR-CMP", "filter": feat("hover", "signature_help"), "floor": 1}, {"rule": "DOC-FLOW", "floor": 1},
+      {"rule": "POSITION-TOKEN", "filter": both(tag("nest"), feat("hover", "signature_help")), "floor": 0},
       {"rule": "FRAME", "filter": files("parser.rs", "utility.rs"), "floor": 3},
       {"rule": "TEXT-SYNC", "filter": tag("utf16"), "floor": 1}])
 
@@ -231,7 +232,7 @@ prop("C16", NEC + "Clauses: every token slice / node pair that drives the positi
      "never merged by label or pruned (NO-MERGE: a variable and a procedure may share a name); the token that classifies the position and "
      "the statement the cursor is located in are determined without the comments in front of the cursor / statement (POSITION-TOKEN)." + PARSER_REF,
      [{"rule": "FRAME", "filter": files("completion.rs"), "floor": 18}, {"rule": "SCOPE-ORDER", "filter": both(feat("completion"), nottag("typescope", "semantic")), "floor": 5},
-      {"rule": "KIND-FILTER", "floor": 7}, {"rule": "NO-MERGE", "floor": 24}, {"rule": "POSITION-TOKEN", "floor": 3},
+      {"rule": "KIND-FILTER", "floor": 7}, {"rule": "NO-MERGE", "floor": 24}, {"rule": "POSITION-TOKEN", "filter": feat("completion"), "floor": 3},
       {"rule": "CURSOR-CMP", "filter": feat("completion"), "floor": 0},
       {"rule": "FRAME", "filter": files("parser.rs", "utility.rs"), "floor": 3}])
 
